@@ -256,10 +256,16 @@ Definition string_repeat_pinned (free len r : Z) : outcome Z :=
 (* [..] * r : number of elements appended by the `for range rightVal` loop *)
 Definition array_repeat (free len r : Z) : outcome Z :=
   if r <? 0 then LangError
+  else if len =? 0 then Val 0          (* nothing to repeat: returns the (empty) left operand, no loop *)
   else bind (make_object_slice free (size_mul len r)) (fun _ => Val (len * r)).
 Definition array_repeat_pinned (free len r : Z) : outcome Z :=
   if r <? 0 then LangError
   else bind (make_object_slice_pinned free (wrap64 (len * r))) (fun _ => Val (len * r)).
+
+(* "s" + "t" : MustBeOk((len(s)+len(t))/ObjectSize) since d1518d2 (no check at all as pinned) *)
+Definition string_concat (free l1 l2 : Z) : outcome Z :=
+  bind (must_be_ok free (Z.quot (wrap64 (l1 + l2)) object_ObjectSize)) (fun _ => Val (l1 + l2)).
+Definition string_concat_pinned (free l1 l2 : Z) : outcome Z := Val (l1 + l2).
 
 (* [..] + [..] *)
 Definition array_concat (free l1 l2 : Z) : outcome Z :=
